@@ -5,6 +5,7 @@ observations (positional view, ordered_arguments under flag combinations, dir, w
 would pass to the callable, history log, tag sets).
 -/
 import Driver.Util
+import FiddleModel.Model.Threads
 import FiddleModel.Model.Call
 open Lean Fiddle
 
@@ -215,12 +216,22 @@ def handle (req : Json) : R Json := do
     let initObs := observe s c0
     let mut c := c0
     let mut s := s
+    let mut saved : List Bool := []      -- flags saved by nested `suspend_tracking()` blocks
     let mut outs : Array Json := #[]
     for op in ops do
-      let (s', c', r) ← stepSig s c op
-      c := c'
-      s := s'
-      outs := outs.push (mkObj [("res", r), ("state", observe s c)])
+      let name ← jstr (← jidx (← jlist op) 0)
+      if name == "enter_suspend" || name == "exit_suspend" then
+        -- the per-thread switch of Model/Threads.lean (`TOp.suspend` / `TOp.resume`)
+        let sys : Fiddle.Sys := { threads := fun _ => { tracking := c.tracking, saved := saved } }
+        let (sys', _) := sys.step 0 (if name == "enter_suspend" then .suspend else .resume)
+        c := { c with tracking := (sys'.threads 0).tracking }
+        saved := (sys'.threads 0).saved
+        outs := outs.push (mkObj [("res", .str "ok"), ("state", observe s c)])
+      else
+        let (s', c', r) ← stepSig s c op
+        c := c'
+        s := s'
+        outs := outs.push (mkObj [("res", r), ("state", observe s c)])
     return mkObj [("init", initObs), ("steps", .arr outs)]
 
 end Driver.ArgStore
